@@ -442,4 +442,444 @@ Proof.
     intros (Sty' & _). rewrite Sty in Sty'. discriminate Sty'.
 Qed.
 
+
+(* ================================================================== *)
+(* 6.3 the leader                                                      *)
+(* ================================================================== *)
+
+(* l0: the leader's log at the start; LL is its abstraction.  During the run only the
+   commit index of the leader's log moves (same_ents) *)
+Variables (rwl : bool) (l0 : raft_log).
+Hypothesis Hl0 : RepInv rwl l0.
+Hypothesis Habs0 : abs l0 = LL.
+
+Lemma same_ents_lookups lg :
+  same_ents l0 lg ->
+  (forall i, RaftLog.term lg i = Ok (ll_term LL i)) /\
+  last_index lg = ll_last LL /\
+  (forall i mx, ll_first LL <= i ->
+     log_entries lg i mx =
+     Ok (SOk (if ll_last LL <? i then [] else ll_slice LL i (ll_last LL + 1) mx))).
+Proof.
+  intros (A & B & _).
+  assert (Ht : forall i, RaftLog.term lg i = RaftLog.term l0 i).
+  { intros i. unfold RaftLog.term, first_index, last_index. rewrite A, B. reflexivity. }
+  assert (Hl : last_index lg = last_index l0) by (unfold last_index; rewrite A, B; reflexivity).
+  assert (He : forall i mx, log_entries lg i mx = log_entries l0 i mx).
+  { intros i mx. unfold log_entries. rewrite Hl. unfold slice, must_check_outofbounds, first_index,
+      store_entries. rewrite Hl, A, B. reflexivity. }
+  split; [intros i; rewrite Ht, (term_abs rwl l0 i Hl0), Habs0; reflexivity|].
+  split; [rewrite Hl, (abs_last rwl l0 Hl0), Habs0; reflexivity|].
+  intros i mx Hi. rewrite He, (log_entries_abs rwl l0 i mx Hl0) by (rewrite Habs0; exact Hi).
+  rewrite Habs0. reflexivity.
+Qed.
+
+(* Inflights.add keeps the capacity settings *)
+Lemma add_cap s x s' : Inflights.add s x = Ok s' -> incoming_cap s = None ->
+  incoming_cap s' = None /\ cap s' = cap s.
+Proof.
+  unfold Inflights.add. intros H Hn. destruct (full s); [discriminate|].
+  inv_bind H. rename x0 into s1.
+  assert (H1 : incoming_cap s1 = None /\ cap s1 = cap s).
+  { destruct (allocated s); [inversion Hx; subst; auto|].
+    destruct (negb (count s =? 0)%nat); [discriminate|].
+    destruct (negb (start s =? 0)%nat); [discriminate|].
+    rewrite Hn in Hx. inversion Hx; subst. cbn. auto. }
+  destruct (length (buffer s1) <? _)%nat; [discriminate|]. inversion H; subst. cbn. exact H1.
+Qed.
+
+Lemma free_to_cap s to s' : Inflights.free_to s to = Ok s' -> incoming_cap s = None ->
+  incoming_cap s' = None /\ cap s' = cap s.
+Proof.
+  unfold Inflights.free_to. intros H Hn. destruct (count s =? 0)%nat; [inversion H; subst; auto|].
+  inv_bind H. destruct (to <? x); [inversion H; subst; auto|].
+  inv_bind H. destruct x0 as [i ix]. rewrite Hn in H.
+  destruct (count s - i =? 0)%nat; inversion H; subst; cbn; auto.
+Qed.
+
+Lemma free_first_one_cap s s' : Inflights.free_first_one s = Ok s' -> incoming_cap s = None ->
+  incoming_cap s' = None /\ cap s' = cap s.
+Proof.
+  unfold Inflights.free_first_one. intros H Hn. destruct (0 <? count s)%nat; [|inversion H; subst; auto].
+  inv_bind H. eapply free_to_cap; eassumption.
+Qed.
+
+(* without batching, maybe_send_append appends at most one message, addressed to [to] *)
+Lemma maybe_send_append_nobatch r to pr ae r' pr' b :
+  r_batch_append r = false -> maybe_send_append r to pr ae = Ok (r', pr', b) ->
+  exists new, r' = r <| r_msgs := r_msgs r ++ new |> /\ Forall (fun x => m_to x = to) new.
+Proof.
+  intros Hb H. unfold maybe_send_append in H.
+  assert (Hnil : r = r <| r_msgs := r_msgs r ++ [] |>) by (rewrite app_nil_r; destruct r; reflexivity).
+  destruct (is_paused pr). { inversion H; subst. exists []. auto. }
+  assert (Hsnap :
+    (x <- prepare_send_snapshot r (msg_default <| m_to := to |>) pr to ;;
+     match x with
+     | None => Ok (r, pr, false)
+     | Some (m', pr1) => r1 <- send r m' ;; Ok (r1, pr1, true)
+     end) = Ok (r', pr', b) ->
+    exists new, r' = r <| r_msgs := r_msgs r ++ new |> /\ Forall (fun x => m_to x = to) new).
+  { intros H2. apply send_snapshot_branch in H2.
+    destruct H2 as [(_ & -> & _)|(_ & _ & sn & _ & _ & _ & ->)].
+    - exists []. auto.
+    - eexists. split; [reflexivity|]. constructor; [reflexivity|constructor]. }
+  destruct (negb (pending_request_snapshot pr =? INVALID_INDEX)). { apply Hsnap. exact H. }
+  inv_bind H. case_if H. { inversion H; subst. exists []. auto. }
+  case_if H; [discriminate|]. inv_bind H.
+  destruct x0 as [t|et]; destruct x as [ents|ee].
+  - rewrite Hb in H. cbn [bind] in H.
+    inv_bind H. destruct x as [m' pr2]. inv_bind H. inversion H; subst; clear H.
+    match goal with Hp : prepare_send_entries _ _ _ _ _ = Ok _ |- _ =>
+      rewrite prepare_send_entries_eq in Hp by (apply N.eqb_neq; exact E0);
+      inv_bind Hp; inversion Hp; subst; clear Hp end.
+    match goal with Hs : send _ _ = Ok _ |- _ =>
+      rewrite send_plain in Hs by reflexivity; inversion Hs; subst; clear Hs end.
+    eexists. split; [reflexivity|]. constructor; [reflexivity|constructor].
+  - destruct ee; try (apply Hsnap; exact H). inversion H; subst. exists []. auto.
+  - apply Hsnap. exact H.
+  - destruct ee; try (apply Hsnap; exact H). inversion H; subst. exists []. auto.
+Qed.
+
+(* the leader's bookkeeping for the follower: what the run preserves *)
+Record PrInv (b : N) (pr : progress) : Prop := mkPrInv {
+  pi_state : pr_state pr = Probe \/ pr_state pr = Replicate;
+  pi_lo : lo <= matched pr;
+  pi_b : matched pr <= b;
+  pi_next : matched pr < next_idx pr;
+  pi_nextL : next_idx pr <= ll_last LL + 1;
+  pi_snapreq : pending_request_snapshot pr = 0;
+  pi_icap : incoming_cap (ins pr) = None;
+  pi_cap : (0 < cap (ins pr))%nat
+}.
+
+(* the part of the progress that the measure depends on: state, matched, and (while
+   probing) next_idx *)
+Definition pkey (pr : progress) : pstate * N * N :=
+  (pr_state pr, matched pr, match pr_state pr with Probe => next_idx pr | _ => 0 end).
+
+Lemma last_map_index (ents : list entry) d :
+  e_index (List.last ents d) = List.last (map e_index ents) (e_index d).
+Proof.
+  induction ents as [|a t IH]; [reflexivity|]. destruct t as [|b t']; [reflexivity|].
+  change (List.last (a :: b :: t') d) with (List.last (b :: t') d).
+  change (List.last (map e_index (a :: b :: t')) (e_index d))
+    with (List.last (map e_index (b :: t')) (e_index d)). exact IH.
+Qed.
+
+(* what the leader reads from its log for a progress that satisfies PrInv *)
+Lemma leader_reads b r pr :
+  same_ents l0 (r_log r) -> PrInv b pr ->
+  exists t ents k,
+    RaftLog.term (r_log r) (next_idx pr - 1) = Ok (SOk t) /\ ll_term LL (next_idx pr - 1) = SOk t /\
+    log_entries (r_log r) (next_idx pr) (Some (r_max_msg_size r)) = Ok (SOk ents) /\
+    ents = firstn k (ll_range LL (next_idx pr) (ll_last LL + 1)) /\
+    contiguous_from (next_idx pr) ents /\
+    next_idx pr + N.of_nat (length ents) <= ll_last LL + 1 /\
+    (next_idx pr <= ll_last LL -> ents <> []) /\
+    (ll_last LL < next_idx pr -> ents = []).
+Proof.
+  intros Hse [P1 P2 P3 P4 P5 P6 P7 P8].
+  destruct (same_ents_lookups _ Hse) as (Lt & Ll & Le).
+  destruct (leader_term_from_lo (next_idx pr - 1) ltac:(lia)) as [t Ht].
+  exists t.
+  assert (Hfirst : ll_first LL <= next_idx pr) by (unfold ll_first; lia).
+  rewrite (Le _ (Some (r_max_msg_size r)) Hfirst).
+  destruct (ll_last LL <? next_idx pr) eqn:E.
+  - exists [], 0%nat. split; [rewrite Lt, Ht; reflexivity|]. split; [exact Ht|].
+    split; [reflexivity|]. split; [reflexivity|]. split; [exact I|]. cbn [length].
+    split; [lia|]. split; [intros; lia|reflexivity].
+  - unfold ll_slice, limit_size.
+    destruct (limit_size_spec entry_size (ll_range LL (next_idx pr) (ll_last LL + 1))
+                (Some (r_max_msg_size r))) as ((k & Hk & Hp) & Hne & _).
+    assert (Hrl : length (ll_range LL (next_idx pr) (ll_last LL + 1)) =
+                  N.to_nat (ll_last LL + 1 - next_idx pr)) by (apply ll_range_length; lia).
+    eexists. exists k. split; [rewrite Lt, Ht; reflexivity|]. split; [exact Ht|].
+    split; [reflexivity|]. split; [exact Hp|]. rewrite Hp.
+    split; [apply contig_firstn; apply ll_range_contig; [apply (lg_wf LL HLL)|exact Hfirst]|].
+    split; [rewrite firstn_length; lia|]. split; [|intros; lia].
+    intros _. rewrite <- Hp. apply Hne. intros Hnil. rewrite Hnil in Hrl. cbn in Hrl. lia.
+Qed.
+
+Lemma maybe_send_append_nothing r to pr :
+  is_paused pr = false -> pending_request_snapshot pr = 0 ->
+  log_entries (r_log r) (next_idx pr) (Some (r_max_msg_size r)) = Ok (SOk []) ->
+  maybe_send_append r to pr false = Ok (r, pr, false).
+Proof.
+  intros Hp Hq He. unfold maybe_send_append. rewrite Hp, Hq.
+  change (0 =? INVALID_INDEX) with true. cbn [negb]. rewrite He. reflexivity.
+Qed.
+
+(* maybe_send_append for the follower under PrInv: at most one sound MsgAppend, probing
+   exactly next_idx - 1; the key of the progress is untouched *)
+Lemma leader_send_append b r pr ae r' pr' sent :
+  same_ents l0 (r_log r) -> r_batch_append r = false -> r_term r = T -> r_id r = l ->
+  PrInv b pr -> maybe_send_append r f pr ae = Ok (r', pr', sent) ->
+  PrInv b pr' /\ pkey pr' = pkey pr /\
+  (sent = false -> r' = r /\ pr' = pr) /\
+  (sent = true -> exists x, r' = r <| r_msgs := r_msgs r ++ [x] |> /\ snd_app x /\
+      m_index x = next_idx pr - 1 /\
+      (next_idx pr <= ll_last LL -> m_entries x <> []) /\
+      (ae = false -> m_entries x <> [])) /\
+  (is_paused pr = false -> ae = true \/ next_idx pr <= ll_last LL -> sent = true).
+Proof.
+  intros Hse Hb Ht Hid HP H.
+  destruct (is_paused pr) eqn:Ep.
+  { rewrite maybe_send_append_paused in H by exact Ep. inversion H; subst.
+    split; [exact HP|]. split; [reflexivity|]. split; [auto|]. split; [discriminate|]. discriminate. }
+  destruct (leader_reads b r pr Hse HP) as (t & ents & k & R1 & R2 & R3 & R4 & R5 & R6 & R7 & R8).
+  pose proof HP as [P1 P2 P3 P4 P5 P6 P7 P8].
+  destruct ents as [|e0 et] eqn:Eents.
+  - destruct ae.
+    + (* an empty append *)
+      rewrite (maybe_send_append_entries r f pr true [] t Ep P6 R3 ltac:(left; reflexivity)
+                 ltac:(lia) R1 Hb) in H.
+      cbn [bind] in H. inversion H; subst r' pr' sent; clear H.
+      split; [exact HP|]. split; [reflexivity|]. split; [discriminate|]. split; [|auto].
+      intros _. eexists. split; [reflexivity|]. split.
+      * unfold snd_app, app_msg. cbn.
+        split; [reflexivity|]. split; [exact Ht|]. split; [exact Hid|]. split; [reflexivity|].
+        split; [lia|]. split; [exact R2|]. exists 0%nat. reflexivity.
+      * split; [reflexivity|]. split; [|discriminate]. intros Hle. exfalso. apply (R7 Hle). reflexivity.
+    + rewrite (maybe_send_append_nothing r f pr Ep P6 R3) in H. inversion H; subst.
+      split; [exact HP|]. split; [reflexivity|]. split; [auto|]. split; [discriminate|].
+      intros _ [Hc|Hc]; [discriminate|]. exfalso. apply (R7 Hc). reflexivity.
+  - rewrite <- Eents in *.
+    assert (Hne : ents <> []) by (rewrite Eents; discriminate).
+    rewrite (maybe_send_append_entries r f pr ae ents t Ep P6 R3 ltac:(right; exact Hne)
+               ltac:(lia) R1 Hb) in H.
+    assert (Hup : match ents with [] => Ok pr | _ :: _ => update_state pr (e_index (List.last ents entry_default)) end
+                  = update_state pr (e_index (List.last ents entry_default))).
+    { rewrite Eents. reflexivity. }
+    rewrite Hup in H. clear Hup. inv_bind H. inversion H; subst r' pr' sent; clear H.
+    assert (Hlast : e_index (List.last ents entry_default) = next_idx pr + N.of_nat (length ents) - 1).
+    { rewrite last_map_index. apply contig_last; assumption. }
+    assert (HP' : PrInv b x /\ pkey x = pkey pr).
+    { unfold update_state in Hx. destruct (pr_state pr) eqn:Es.
+      - inversion Hx; subst x. split; [constructor; cbn; auto|]. unfold pkey. cbn. rewrite Es. reflexivity.
+      - inv_bind Hx. inversion Hx; subst x. destruct (add_cap _ _ _ Hx0 P7) as [C1 C2].
+        split.
+        + constructor; cbn; auto; try lia; try (rewrite C2; exact P8).
+        + unfold pkey. cbn. rewrite Es. reflexivity.
+      - discriminate. }
+    destruct HP' as [HP' Hk].
+    split; [exact HP'|]. split; [exact Hk|]. split; [discriminate|]. split; [|auto].
+    intros _. eexists. split; [reflexivity|]. split.
+    + unfold snd_app, app_msg. cbn.
+      split; [reflexivity|]. split; [exact Ht|]. split; [exact Hid|]. split; [reflexivity|].
+      split; [lia|]. split; [exact R2|]. exists k.
+      replace (next_idx pr - 1 + 1) with (next_idx pr) by lia. exact R4.
+    + split; [reflexivity|]. split; intros _; exact Hne.
+Qed.
+
+(* --- frames for the leader --- *)
+
+(* only the log (in fact only its commit index), the progress map and the queue differ *)
+Definition lfr (r r' : raft) : Prop :=
+  r' = r <| r_log := r_log r' |> <| r_prs := r_prs r' |> <| r_msgs := r_msgs r' |> /\
+  same_ents (r_log r) (r_log r').
+
+Lemma lfr_refl r : lfr r r.
+Proof. split; [destruct r; reflexivity|apply same_ents_refl]. Qed.
+
+Lemma lfr_trans a b c : lfr a b -> lfr b c -> lfr a c.
+Proof.
+  intros [H1 S1] [H2 S2]. split; [|eapply same_ents_trans; eassumption].
+  rewrite H2. rewrite H1 at 1. destruct a; reflexivity.
+Qed.
+
+Lemma msgs_only_lfr r r' : msgs_only r r' -> lfr r r'.
+Proof.
+  unfold msgs_only. intros H. split.
+  - rewrite H. destruct r; reflexivity.
+  - rewrite H. apply same_ents_refl.
+Qed.
+
+Lemma put_pr_lfr r id p : lfr r (put_pr r id p).
+Proof. split; [unfold put_pr; destruct r; reflexivity|apply same_ents_refl]. Qed.
+
+(* new messages are appended, and those addressed to the follower are sound appends *)
+Definition mext (r r' : raft) : Prop :=
+  exists new, r_msgs r' = r_msgs r ++ new /\ Forall (fun x => m_to x = f -> snd_app x) new.
+
+Lemma mext_refl r : mext r r.
+Proof. exists []. rewrite app_nil_r. auto. Qed.
+
+Lemma mext_trans a b c : mext a b -> mext b c -> mext a c.
+Proof.
+  intros (n1 & E1 & F1) (n2 & E2 & F2). exists (n1 ++ n2). split.
+  - rewrite E2, E1, app_assoc. reflexivity.
+  - apply Forall_app. auto.
+Qed.
+
+Lemma mext_same r r' : r_msgs r' = r_msgs r -> mext r r'.
+Proof. intros H. exists []. rewrite app_nil_r. auto. Qed.
+
+(* the static part of the leader invariant *)
+Record LCore (L : raft) : Prop := mkLCore {
+  lc_state : r_state L = Leader;
+  lc_term : r_term L = T;
+  lc_id : r_id L = l;
+  lc_log : same_ents l0 (r_log L);
+  lc_batch : r_batch_append L = false;
+  lc_transfer : r_lead_transferee L = None;
+  lc_cq : r_check_quorum L = false;
+  lc_ro : ro_queue (r_read_only L) = []
+}.
+
+Lemma lfr_LCore r r' : lfr r r' -> LCore r -> LCore r'.
+Proof.
+  intros [H S] [C1 C2 C3 C4 C5 C6 C7 C8]. rewrite H.
+  constructor; cbn; auto. rewrite H in S. cbn in S. eapply same_ents_trans; eassumption.
+Qed.
+
+(* one sub-operation of a leader handler, seen from the follower's progress *)
+Definition lstep (b : N) (r : raft) (pr : progress) (r' : raft) (pr' : progress) : Prop :=
+  lfr r r' /\ mext r r' /\ get_pr r' f = Some pr' /\ PrInv b pr' /\ pkey pr' = pkey pr.
+
+Lemma lstep_trans b r1 p1 r2 p2 r3 p3 :
+  lstep b r1 p1 r2 p2 -> lstep b r2 p2 r3 p3 -> lstep b r1 p1 r3 p3.
+Proof.
+  intros (A1 & A2 & A3 & A4 & A5) (B1 & B2 & B3 & B4 & B5).
+  split; [eapply lfr_trans; eassumption|]. split; [eapply mext_trans; eassumption|].
+  split; [exact B3|]. split; [exact B4|congruence].
+Qed.
+
+Lemma lstep_refl b r pr : get_pr r f = Some pr -> PrInv b pr -> lstep b r pr r pr.
+Proof. intros. split; [apply lfr_refl|]. split; [apply mext_refl|]. auto. Qed.
+
+Lemma send_append_to_lstep b r pr id r' :
+  LCore r -> get_pr r f = Some pr -> PrInv b pr -> send_append_to r id = Ok r' ->
+  exists pr', lstep b r pr r' pr'.
+Proof.
+  intros HC Hg HP H. unfold send_append_to in H.
+  destruct (get_pr r id) as [pid|] eqn:Hgi; [|discriminate].
+  inv_bind H. destruct x as [[r1 p1] sent]. inversion H; subst r'; clear H.
+  destruct (N.eq_dec id f) as [->|Hne].
+  - rewrite Hg in Hgi. inversion Hgi; subst pid; clear Hgi.
+    destruct (leader_send_append b r pr true r1 p1 sent (lc_log _ HC) (lc_batch _ HC) (lc_term _ HC)
+                (lc_id _ HC) HP Hx) as (HP1 & Hk & Hf & Ht & _).
+    exists p1. split.
+    { eapply lfr_trans; [|apply put_pr_lfr]. apply msgs_only_lfr.
+      apply maybe_send_append_facts in Hx. apply Hx. }
+    split.
+    { destruct sent.
+      - destruct (Ht eq_refl) as (x & -> & Hs & _). exists [x]. split; [reflexivity|].
+        constructor; [intros _; exact Hs|constructor].
+      - destruct (Hf eq_refl) as [-> _]. apply mext_same. reflexivity. }
+    split; [apply get_pr_put_same|]. split; [exact HP1|exact Hk].
+  - destruct (maybe_send_append_nobatch r id pid true r1 p1 sent (lc_batch _ HC) Hx) as (new & -> & Hto).
+    exists pr. split.
+    { eapply lfr_trans; [|apply put_pr_lfr]. apply msgs_only_lfr. apply msgs_only_set. }
+    split.
+    { exists new. split; [reflexivity|]. eapply Forall_impl; [|exact Hto].
+      intros x Hx1 Hx2. cbn in Hx1. congruence. }
+    split; [rewrite get_pr_put_other by congruence; exact Hg|]. split; [exact HP|reflexivity].
+Qed.
+
+Lemma for_each_peer_lstep b (g : raft -> N -> Res raft) :
+  (forall r pr id r', LCore r -> get_pr r f = Some pr -> PrInv b pr -> g r id = Ok r' ->
+                      exists pr', lstep b r pr r' pr') ->
+  forall ids self r pr r',
+    LCore r -> get_pr r f = Some pr -> PrInv b pr -> for_each_peer ids self g r = Ok r' ->
+    exists pr', lstep b r pr r' pr'.
+Proof.
+  intros Hg. induction ids as [|id rest IH]; intros self r pr r' HC Hgp HP H.
+  { inversion H; subst. exists pr. apply lstep_refl; assumption. }
+  cbn [for_each_peer] in H. destruct (id =? self). { eapply IH; eassumption. }
+  inv_bind H. destruct (Hg _ _ _ _ HC Hgp HP Hx) as (p1 & S1).
+  pose proof S1 as (A1 & _ & A3 & A4 & _).
+  destruct (IH self x p1 r' (lfr_LCore _ _ A1 HC) A3 A4 H) as (p2 & S2).
+  exists p2. eapply lstep_trans; eassumption.
+Qed.
+
+Lemma bcast_append_lstep b r pr r' :
+  LCore r -> get_pr r f = Some pr -> PrInv b pr -> bcast_append r = Ok r' ->
+  exists pr', lstep b r pr r' pr'.
+Proof.
+  unfold bcast_append. intros HC Hg HP H.
+  eapply (for_each_peer_lstep b send_append_to); try eassumption.
+  intros. eapply send_append_to_lstep; eassumption.
+Qed.
+
+Lemma send_append_aggressively_loop_lstep b fuel : forall r pr r' pr',
+  LCore r -> PrInv b pr ->
+  send_append_aggressively_loop fuel r f pr = Ok (r', pr') ->
+  msgs_only r r' /\ mext r r' /\ PrInv b pr' /\ pkey pr' = pkey pr.
+Proof.
+  induction fuel as [|fu IH]; intros r pr r' pr' HC HP H; [discriminate|].
+  cbn [send_append_aggressively_loop] in H. inv_bind H. destruct x as [[r1 p1] sent].
+  destruct (leader_send_append b r pr false r1 p1 sent (lc_log _ HC) (lc_batch _ HC) (lc_term _ HC)
+              (lc_id _ HC) HP Hx) as (HP1 & Hk & Hf & Ht & _).
+  pose proof (maybe_send_append_facts _ _ _ _ _ _ _ Hx) as (Hmo & _).
+  destruct sent.
+  - destruct (Ht eq_refl) as (x & E & Hs & _).
+    assert (HC1 : LCore r1) by (eapply lfr_LCore; [apply msgs_only_lfr; exact Hmo|exact HC]).
+    destruct (IH _ _ _ _ HC1 HP1 H) as (B1 & B2 & B3 & B4).
+    split; [eapply msgs_only_trans; eassumption|]. split.
+    { eapply mext_trans; [|exact B2]. exists [x]. rewrite E. split; [reflexivity|].
+      constructor; [intros _; exact Hs|constructor]. }
+    split; [exact B3|congruence].
+  - inversion H; subst r' pr'. destruct (Hf eq_refl) as [-> ->].
+    split; [apply msgs_only_refl|]. split; [apply mext_refl|]. auto.
+Qed.
+
+Lemma send_append_aggressively_lstep b r pr r' :
+  LCore r -> get_pr r f = Some pr -> PrInv b pr -> send_append_aggressively r f = Ok r' ->
+  exists pr', lstep b r pr r' pr'.
+Proof.
+  intros HC Hg HP H. unfold send_append_aggressively in H. rewrite Hg in H.
+  inv_bind H. destruct x as [r1 p1]. inversion H; subst r'; clear H.
+  destruct (send_append_aggressively_loop_lstep b _ _ _ _ _ HC HP Hx) as (B1 & B2 & B3 & B4).
+  exists p1. split; [eapply lfr_trans; [apply msgs_only_lfr; exact B1|apply put_pr_lfr]|].
+  split; [destruct B2 as (new & E & Fo); exists new; split; [exact E|exact Fo]|].
+  split; [apply get_pr_put_same|]. auto.
+Qed.
+
+Lemma maybe_commit_lstep b r pr r' cm :
+  LCore r -> get_pr r f = Some pr -> PrInv b pr -> maybe_commit r = Ok (r', cm) ->
+  lstep b r pr r' pr.
+Proof.
+  intros HC Hg HP H. unfold maybe_commit in H. inv_bind H. destruct x as [l' b'].
+  apply log_maybe_commit_same_ents in Hx.
+  assert (Hl : lfr r (r <| r_log := l' |>)).
+  { split; [destruct r; reflexivity|exact Hx]. }
+  destruct b'.
+  - destruct (get_pr r (r_id r)) as [ps|] eqn:Hgs; [|discriminate]. inversion H; subst r' cm; clear H.
+    split; [eapply lfr_trans; [exact Hl|apply put_pr_lfr]|]. split; [apply mext_same; reflexivity|].
+    split.
+    { rewrite get_pr_put_other.
+      - exact Hg.
+      - change (r_id (r <| r_log := l' |>)) with (r_id r). rewrite (lc_id _ HC). congruence. }
+    auto.
+  - inversion H; subst r' cm; clear H.
+    split; [exact Hl|]. split; [apply mext_same; reflexivity|]. split; [exact Hg|]. auto.
+Qed.
+
+(* the tail of handle_append_response after a successful, advancing acknowledgement *)
+Lemma ack_tail_lstep b r pr m op r' :
+  LCore r -> get_pr r f = Some pr -> PrInv b pr -> m_from m = f ->
+  ack_tail r m op = Ok r' -> exists pr', lstep b r pr r' pr'.
+Proof.
+  intros HC Hg HP Hfrom H. unfold ack_tail in H. rewrite Hfrom in H.
+  inv_bind H. destruct x as [r1 cmt].
+  pose proof (maybe_commit_lstep b _ _ _ _ HC Hg HP Hx) as S1.
+  pose proof S1 as (A1 & _ & A3 & A4 & _). pose proof (lfr_LCore _ _ A1 HC) as HC1.
+  inv_bind H. rename x into r2.
+  assert (S2 : exists p2, lstep b r1 pr r2 p2).
+  { destruct cmt.
+    - destruct (should_bcast_commit r1).
+      + eapply bcast_append_lstep; eassumption.
+      + inversion Hx0; subst. exists pr. apply lstep_refl; assumption.
+    - destruct op.
+      + eapply send_append_to_lstep; eassumption.
+      + inversion Hx0; subst. exists pr. apply lstep_refl; assumption. }
+  destruct S2 as (p2 & S2). pose proof S2 as (B1 & _ & B3 & B4 & _).
+  pose proof (lfr_LCore _ _ B1 HC1) as HC2.
+  inv_bind H. rename x into r3.
+  destruct (send_append_aggressively_lstep b _ _ _ HC2 B3 B4 Hx1) as (p3 & S3).
+  pose proof S3 as (C1 & _). pose proof (lfr_LCore _ _ C1 HC2) as HC3.
+  rewrite (lc_transfer _ HC3) in H. inversion H; subst r'.
+  exists p3. eapply lstep_trans; [exact S1|]. eapply lstep_trans; eassumption.
+Qed.
+
 End Pair.
